@@ -529,6 +529,15 @@ func tagsOf(in *Input, res *core.Result) {
 			case f.Class == "empty":
 				tags["field_empty_struct"] = true
 			}
+			if !f.Embedded && token.IsExported(f.Name) && in.covered(t) {
+				if tt := in.lookup(strings.TrimSuffix(f.Type, "[int]")); tt != nil {
+					k := tt.Kind
+					if tt.Generic {
+						k = "generic_" + k
+					}
+					tags["field_by_value_of_local_"+k] = true
+				}
+			}
 			if f.Foreign != "" {
 				tags["embedded_foreign"] = true
 			}
@@ -546,6 +555,9 @@ func tagsOf(in *Input, res *core.Result) {
 				}
 				if strings.ContainsAny(l.Text, "\"\\`") {
 					tags["doc_quotes_backslashes"] = true
+				}
+				if !l.Tag && directiveLike(l.Text) {
+					tags["doc_line_starts_like_a_directive"] = true
 				}
 				if strings.ContainsAny(l.Text, "%@") {
 					tags["doc_percent_at"] = true
@@ -573,6 +585,20 @@ func tagsOf(in *Input, res *core.Result) {
 	}
 	sort.Strings(res.Tags)
 	res.Tags = append(res.Tags, fmt.Sprintf("types=%d", min(len(in.Types), 10)))
+}
+
+// directiveLike: [a-z0-9]+:[a-z0-9] at the start of the line (go/ast's directive pattern)
+func directiveLike(l string) bool {
+	i := strings.IndexByte(l, ':')
+	if i <= 0 || i+1 >= len(l) {
+		return false
+	}
+	for k := 0; k <= i+1; k++ {
+		if c := l[k]; k != i && !('a' <= c && c <= 'z' || '0' <= c && c <= '9') {
+			return false
+		}
+	}
+	return true
 }
 
 // Extra: no extra work; records that the thorough tier contains the small-scope enumeration of first doc lines.
